@@ -157,6 +157,19 @@ func c01Run(w *core.W) {
 	if !c01BySize(w, emit) {
 		return
 	}
+	// F2: statement-position product
+	w.Family("F2-statement-position")
+	lv := 1
+	if full {
+		lv = 2
+	}
+	for _, st := range stmtForms(lv) {
+		for _, sc := range stmtContexts() {
+			if !emit(sc.F(st)) {
+				return
+			}
+		}
+	}
 	// F1a: operand-source product in every statement context
 	w.Family("F1-operand-x-stmt-context")
 	for _, sc := range stmtContexts() {
